@@ -759,6 +759,51 @@ Proof.
   destruct (get_mem 32 d7) as [[asc d8]|]; reflexivity.
 Qed.
 
+(* ---------- SRC.getCallouts: the subsection header, the running length and the loop condition ---------- *)
+(* the model keeps the first two bytes (they are not displayed: the code reads them into `_`) *)
+Definition callouts_head : reader N := _ <- get_int 1 ;; _ <- get_int 1 ;; wl <- get_int 2 ;; ret wl.
+
+Definition callouts_head_agrees (d : bytes) : Prop :=
+  match run prog_callouts_head (init d) with
+  | RFall s =>
+      callouts_head d = Some (int_of s (L "subsectionWordLength"), s_rest s) /\
+      int_of s (L "currentLength") = 4%N /\
+      evc guard_callouts s = Some (4 <? int_of s (L "subsectionWordLength") * 4)%N
+  | RErr => callouts_head d = None
+  | _ => False
+  end.
+
+Theorem callouts_head_correct : forall d, callouts_head_agrees d.
+Proof.
+  intro d. unfold callouts_head_agrees.
+  do 4 (destruct d as [|?a d]; [cbv -[be_val Z.of_N]; reflexivity|]).
+  unfold prog_callouts_head, init. do 5 step.
+  change (callouts_head (a :: a0 :: a1 :: a2 :: d)) with (Some (be_val [a1; a2] 0, d)).
+  generalize (be_val [a1; a2] 0). intro wl.
+  cbn [run forget names_var N.eqb Pos.eqb andb s_rest s_idx s_ints s_mems].
+  split; [|split].
+  - cbv -[be_val Z.of_N Z.to_N]. rewrite N2Z.id. reflexivity.
+  - reflexivity.
+  - (let n := eval cbv in (L "subsectionWordLength") in change (L "subsectionWordLength") with n).
+    unfold guard_callouts, int_of. cbn [evc ev geti s_ints text_eqb N.eqb Pos.eqb andb].
+    rewrite N2Z.id. f_equal. lia.
+Qed.
+
+(* the loop condition in any later round: the words declared times four against the running length *)
+Lemma callouts_guard wl cur d i mems :
+  evc guard_callouts (mkS d i [(L "currentLength", Z.of_N cur); (L "subsectionWordLength", Z.of_N wl)] mems) = Some (cur <? wl * 4)%N.
+Proof. cbn. f_equal. lia. Qed.
+
+Lemma parse_callouts_split d :
+  parse_callouts d =
+  (id <- get_int 1 ;; fl <- get_int 1 ;; wl <- get_int 2 ;;
+   l <- parse_callout_list (N.to_nat wl + 4) (wl * 4) 4 [] ;;
+   match l with
+   | None => ret None
+   | Some l => ret (Some {| cs_id := id; cs_flags := fl; cs_wlen := wl; cs_list := l |})
+   end) d.
+Proof. reflexivity. Qed.
+
 Theorem src_readers_agree :
   (forall d, fru_agrees d) /\ (forall d, pce_agrees d) /\ (forall d, mru_agrees d) /\ (forall d, head_agrees d) /\
   (forall f size cur acc d, parse_subs (S f) size cur acc d = subs_step f size cur acc d).
